@@ -38,6 +38,7 @@ func vpWithdrawSpec(rx, ry, ps, pc sdkmath.Int, fee sdkmath.LegacyDec, x, y sdkm
 
 // C06: a withdrawal never returns more than the pro-rata share reduced by the fee; the last share gets everything.
 func VP_C06_Withdraw() {
+	zzvp.Option("no-region-merge") // pure non-linear arithmetic: separate paths keep the queries small
 	rx, ry, ps, pc := vpAmount(true), vpAmount(true), vpAmount(false), vpAmount(false)
 	fee := zzvp.AnyDec()
 	zzvp.Assume(pc.LTE(ps))
@@ -63,6 +64,7 @@ func vpDepositSpec(rx, ry, ps, x, y, ax, ay, pc sdkmath.Int) {
 
 // C06: a deposit never takes more than offered and mints at a rate no better than reserves per share. All five operands symbolic.
 func VP_C06_Deposit() {
+	zzvp.Option("no-region-merge") // pure non-linear arithmetic: separate paths keep the queries small
 	rx, ry, ps, x, y := vpAmount(false), vpAmount(false), vpAmount(false), vpAmount(false), vpAmount(false)
 	ax, ay, pc := Deposit(rx, ry, ps, x, y)
 	zzvp.Reach("deposit-returned")
@@ -72,6 +74,7 @@ func VP_C06_Deposit() {
 // Same obligations with the pool state (configuration) taken from a boundary-heavy grid and the user's amounts symbolic:
 // every product and quotient is then linear in the symbolic inputs.
 func VP_C06_DepositGrid() {
+	zzvp.Option("no-region-merge") // pure non-linear arithmetic: separate paths keep the queries small
 	type st struct{ rx, ry, ps string }
 	grid := []st{
 		{"1", "1", "1"}, {"1000000", "1000000", "1000000"}, {"1", "1000000000000000000", "1000000000"},
